@@ -401,7 +401,12 @@ pub fn solve_on<RT: resolvo::runtime::AsyncRuntime>(
         Err(Err(pi)) => Outcome::Panic(pi),
         Ok(Ok(sol)) => Outcome::Ok(sol.into_iter().map(|s| s.0).collect()),
         Ok(Err(UnsolvableOrCancelled::Cancelled(v))) => {
-            Outcome::Cancelled(v.downcast_ref::<Token>().map(|t| t.0))
+            if v.downcast_ref::<Killed>().is_some() {
+                // stopped by the wall-clock monitor: the solve was looping
+                Outcome::Horizon
+            } else {
+                Outcome::Cancelled(v.downcast_ref::<Token>().map(|t| t.0))
+            }
         }
         Ok(Err(UnsolvableOrCancelled::Unsolvable(conflict))) => {
             if cfg.render {
